@@ -2,9 +2,9 @@ SPECIFICATION Spec
 CONSTANTS
   N = 2
   Cls = "exact"
-  Gates <- GatesE2
+  Gates <- GatesE2q
   NewParams <- NewParamsC
-  Queries <- QueriesE2
+  Queries <- QueriesE2q
   MaxDepth = 4
   Record = FALSE
   Deviations <- NoDev
